@@ -352,6 +352,34 @@ def run_route(c):
     return None
 
 
+SHOW2D_ARR = [("S",), ("S", "S"), ("C2",), ("N2",), ("N3",), ("C2", "S"), ("S", "N2"), ("C1", "C2"), ("M",)]
+
+
+def run_show2d(c):
+    """the sensor-output plot of show(..., output=..., sumup=True) draws, per sensor, the field of ALL displayed sources summed
+    once: the same numbers as getB(objects, sensor, sumup=True)"""
+    import magpylib as magpy
+
+    items, fac = build_list(c["kinds"], [1] * len(c["kinds"]))
+    npath = 4
+    sens = magpy.Sensor(position=np.linspace((-1.0, 0.3, 2.0), (3.0, -0.2, 2.5), npath), style_label="probe")
+    out = c["output"]
+    comp = "xyz".index(out[1])
+    want = np.asarray(getattr(magpy, "get" + out[0])(items, sens, sumup=True, squeeze=False))[0, :, 0, 0, comp]
+    with common.time_limit(60):
+        fig = magpy.show(*items, sens, output=out, sumup=True, backend="plotly", return_fig=True)
+    lines = [np.asarray(t.y, float) for t in fig.data if t.type == "scatter" and t.y is not None and len(t.y) == npath
+             and "probe" in ((t.name or "") + (t.legendgrouptitle.text or "" if t.legendgrouptitle else "") + (t.legendgroup or ""))]
+    if len(lines) != 1:
+        return f"show2d: {len(lines)} curves of the path length instead of one summed curve"
+    sc = max(float(np.max(np.abs(want))), 1e-300)
+    err = float(np.max(np.abs(lines[0] - want))) / sc
+    if not err <= 1e-9:
+        ratio = float(np.median(lines[0][np.abs(want) > 0.1 * sc] / want[np.abs(want) > 0.1 * sc])) if np.any(np.abs(want) > 0.1 * sc) else float("nan")
+        return f"show2d: summed curve differs from getB(..., sumup=True) rel={err:.3g} (median ratio {ratio:.3g})"
+    return None
+
+
 def run_singular(c):
     """observers at points where ONE source of the list has no finite field (Dipole position, Triangle / Tetrahedron vertex):
     the sum over sources is then not finite either - sumup and collections must not hide it"""
@@ -391,6 +419,8 @@ def work(c):
     try:
         if c["part"] == "sing":
             return run_singular(c)
+        if c["part"] == "show2d":
+            return run_show2d(c)
         if c["part"] == "lin" and c["kind"] == "route":
             return run_route(c)
         return run_arr(c) if c["part"] == "arr" else run_lin(c)
@@ -424,6 +454,9 @@ def enumerate_cases(tier):
         for form in ("sumup", "sens_sumup", "collection"):
             for field in ("B", "H"):
                 cases.append({"part": "sing", "order": list(order), "form": form, "field": field})
+    for kinds in SHOW2D_ARR:
+        for out in ("Bx", "Hz", "By"):
+            cases.append({"part": "show2d", "kinds": list(kinds), "output": out})
     for cls in lin_sources():
         for field in ("B", "H"):
             for i in range(len(VECS)):
@@ -438,6 +471,9 @@ def enumerate_cases(tier):
 
 
 def vkey(c, r):
+    if c["part"] == "show2d":
+        ncoll = sum(1 for k in c["kinds"] if k != "S")
+        return f"C05|show2d|{'collections' if ncoll else 'bare-sources'}|{r.split(' ')[1] if len(r.split(' ')) > 1 else 'differs'}"
     if c["part"] == "sing":
         return f"C05|singular-observer|{c['form']}|{c['field']}|{r.split(' ')[0]}"
     if c["part"] == "lin":
@@ -461,7 +497,7 @@ def run(tier, seed):
             continue
         viols.append({"key": vkey(c, r), "what": f"{c}: {r}", "case": c, "observed": r})
     narr = sum(1 for c in cases if c["part"] == "arr")
-    nontriv = sum(1 for c in cases if c["part"] in ("lin", "sing") or len(c["kinds"]) > 1 or c["kinds"][0] != "S")
+    nontriv = sum(1 for c in cases if c["part"] in ("lin", "sing", "show2d") or len(c["kinds"]) > 1 or c["kinds"][0] != "S")
     cov = {
         "evaluations": len(cases), "distinct_nontrivial": nontriv,
         "rule": "arrangement cases are all ordered item lists (distinct by construction) compared with sums of single-leaf "
